@@ -191,6 +191,15 @@ def _killed(fn, fact, upto):
         return False
     ub, us = upto
     src = fact.src
+    # the calls that *produced* the compared values mutate their own arguments as part of computing them:
+    # those writes are not "later" writes
+    producers = set()
+    from .mir import sym_walk
+    for side in (fact.l, fact.r):
+        if isinstance(side, tuple) and side and isinstance(side[0], str) and side[0] != "set":
+            for sub in sym_walk(side):
+                if sub[0] == "call" and len(sub) > 3 and isinstance(sub[3], int):
+                    producers.add((sub[3], len(fn.blocks[sub[3]]["st"])))
     for place, (lb, ls) in fact.leaves:
         pc = place_chain(place)
         if pc is None:
@@ -200,6 +209,8 @@ def _killed(fn, fact, upto):
         for (wb, wsi), wsym, how in ws:
             wc = place_chain(wsym)
             if wc is None or not overlaps(pc, wc):
+                continue
+            if (wb, wsi) in producers:
                 continue
             same_block_before_read = (wb == lb and wsi < ls)
             after = (wb == lb and wsi > ls) or fn.can_reach_strict(lb, wb) if wb != lb else (wsi > ls or fn.can_reach_strict(lb, lb))
